@@ -20,6 +20,9 @@ func init() {
 			{Name: "longrun", Variant: "plain", N: core.Tiered(1, 2), Run: c19Long},
 			{Name: "cycle", Variant: "plain", N: core.Tiered(400, 400), Run: c19Cycle},
 			{Name: "special", Variant: "plain", N: core.Tiered(40, 400), Run: c19Special},
+			// "started from any valid date ... for any number of steps" also holds for the n-th run of a process: sequences
+			// of runs that repeat start dates with other lengths, while the caller recycles (clears) earlier output arrays
+			{Name: "history", Variant: "plain", N: core.Tiered(60, 3000), Run: c19History},
 		},
 		Exhaustive: func(t string) bool { return t == "thorough" },
 	})
@@ -38,6 +41,10 @@ func checkDates(c *core.Ctx, d, m, y, T int) {
 		c.Violate("prepare", "DateGenerator", err.Error())
 		return
 	}
+	checkDateOutputs(c, out, d, m, y, T)
+}
+
+func checkDateOutputs(c *core.Ctx, out *MOut, d, m, y, T int) {
 	t0 := time.Date(y, time.Month(m), d, 0, 0, 0, 0, time.UTC)
 	o := out.Out[0]
 	for t := 0; t < T; t++ {
@@ -145,4 +152,61 @@ func c19Special(c *core.Ctx) {
 		c.Trivial()
 	}
 	checkDates(c, d, m, y, T)
+}
+
+func c19History(c *core.Ctx) {
+	type step struct {
+		D, M, Y, T int
+		Clear      bool `json:"clear_previous_outputs_first"`
+	}
+	var steps []step
+	y := c.R.IntRange(1590, 2410)
+	m := c.R.IntRange(1, 12)
+	d := c.R.IntRange(1, daysIn(m, y))
+	T := c.R.IntRange(30, 800)
+	for k := c.R.IntRange(2, 6); k > 0; k-- {
+		st := step{d, m, y, T, c.R.Bool(0.6)}
+		steps = append(steps, st)
+		switch c.R.Intn(4) {
+		case 0: // another start
+			y = c.R.IntRange(1590, 2410)
+			m = c.R.IntRange(1, 12)
+			d = c.R.IntRange(1, daysIn(m, y))
+		case 1: // same start, shorter
+			T = c.R.IntRange(1, T)
+		case 2: // same start, longer
+			T += c.R.IntRange(1, 400)
+		}
+	}
+	c.Begin(map[string]interface{}{"model": "DateGenerator", "runs": steps})
+	c.Class(fmt.Sprintf("history/%d", len(steps)))
+	var prev []*Prepared
+	for _, st := range steps {
+		if st.Clear {
+			for _, p := range prev {
+				sh := p.Outputs.Shape()
+				for i := 0; i < sh[0]; i++ {
+					for j := 0; j < sh[1]; j++ {
+						for k := 0; k < sh[2]; k++ {
+							p.Outputs.Set3(i, j, k, 0)
+						}
+					}
+				}
+			}
+			c.Count("earlier_output_arrays_cleared", float64(len(prev)))
+		}
+		run := &MRun{Model: "DateGenerator", N: 1, T: st.T, Sets: []PSet{{{float64(st.D)}, {float64(st.M)}, {float64(st.Y)}}}, Inputs: [][][]float64{{make([]float64, st.T)}}}
+		p, err := Prepare(run)
+		if err != nil {
+			c.Violate("prepare", "DateGenerator", err.Error())
+			return
+		}
+		out := p.Exec()
+		prev = append(prev, p)
+		checkDateOutputs(c, out, st.D, st.M, st.Y, st.T)
+		if len(c.Res.Violations) > 0 {
+			return
+		}
+		c.Count("runs_in_histories", 1)
+	}
 }
